@@ -47,7 +47,7 @@ def main(tier):
     chk.assumptions += [
         'Lang.tla is trusted as the reading of RFC 4647 section 3.3.2 + the two CSS additions (empty range, "*")',
         'language tags / ranges are hyphen-separated sequences of non-empty ASCII subtags (ranges may use "*"); '
-        'ranges or tags with empty subtags, and "*" inside a tag, are outside the property and not generated',
+        'tags with empty subtags and "*" inside a tag are outside the property and not generated; ranges with empty subtags are run against well-formed tags only',
         'at most one content-language pragma per document, without commas or white space in its content',
         'documents are built through the bs4 API (html.parser / lxml-xml builders)',
     ]
@@ -56,14 +56,17 @@ def main(tier):
 
     # (i) the filter table
     # (Plumb - the table read through Matches equals LangFilter - is the same statement at both sizes)
-    replay.run_cfg(chk, 'MC_C13_filter', {'MaxLen': 3 if q else 4, 'Chunk': 6},
+    replay.run_cfg(chk, 'MC_C13_filter', {'MaxLen': 3 if q else 4, 'Chunk': 6, 'EmptySubtags': 'FALSE'},
                    'filter%d' % (3 if q else 4), invariants=('Emit', 'Laws', 'Plumb') if q else ('Emit', 'Laws'))
+
+    # ranges with empty subtags ("de-", "-", "de--x", "*-"): an empty range subtag equals no subtag of a well-formed tag, so they match nothing
+    replay.run_cfg(chk, 'MC_C13_filter', {'MaxLen': 2 if q else 3, 'Chunk': 6, 'EmptySubtags': 'TRUE'}, 'filter-empty-subtags', invariants=('Emit',))
 
     # (ii) language determination
     mc = 3 if q else 4
     metas = ['none', 'en', 'empty'] if q else ['none', 'en', 'empty', 'nocontent', 'other']
     ips = [0] + list(range(2, mc + 1))
-    base = {'MaxChain': mc, 'Modes': tla_set(['html', 'mixed', 'xml', 'xhtml', 'xmlmix']), 'Metas': tla_set(metas),
+    base = {'MaxChain': mc, 'Modes': tla_set(['html', 'mixed', 'mixedf', 'xml', 'xhtml', 'xmlmix']), 'Metas': tla_set(metas),
             'IframeAts': tla_set(ips), 'Inners': tla_set(['none']), 'XhtmlMeta': 'FALSE'}
     inv = ('Emit', 'Laws')
     # HTML, html5lib-style, XML with every pragma state; XHTML without a pragma
